@@ -1,6 +1,7 @@
 //! ragc-sim: deterministic simulation with fault injection for ekg/ragc (see /verif/DESIGN.md).
 #![allow(dead_code, unused_imports)]
 
+mod alloc;
 mod engines;
 mod gen;
 #[path = "/repo/ragc-cli/src/main.rs"]
@@ -13,6 +14,10 @@ mod seed;
 mod simrun;
 
 use props::{Ctx, Prop, Tier};
+
+#[global_allocator]
+static GLOBAL_ALLOC: alloc::CountingAlloc = alloc::CountingAlloc;
+
 use report::{Aggregate, Violation};
 use serde_json::{json, Value};
 use std::io::Read;
@@ -237,6 +242,25 @@ fn minimise_cmd(args: &[String]) -> i32 {
     }
 }
 
+/// `transcript <file>`: print the transcript digest and summary of the spec in a replay file
+/// under THIS build (used to reproduce profile divergences).
+fn transcript_cmd(args: &[String]) -> i32 {
+    let Ok(txt) = std::fs::read_to_string(&args[0]) else { return 2 };
+    let Ok(f) = serde_json::from_str::<Value>(&txt) else { return 2 };
+    let Some(prop) = props::lookup(f["property"].as_str().unwrap_or("")) else { return 2 };
+    let ctx = Ctx { base_seed: f["verif_seed"].as_u64().unwrap_or(DEFAULT_SEED), tier: Tier::Quick,
+        profile: if cfg!(debug_assertions) { "checked" } else { "fast" } };
+    warm_up();
+    let r = prop.replay(&ctx, &f["spec"]);
+    match r.transcript {
+        Some((_, d, m)) => {
+            println!("{d:x} {m}");
+            0
+        }
+        None => 2,
+    }
+}
+
 fn check(args: &[String]) -> i32 {
     let id = args[0].clone();
     let Some(prop) = props::lookup(&id) else {
@@ -320,9 +344,34 @@ fn check(args: &[String]) -> i32 {
         }
         per_profile.push((profile, pagg));
     }
-    for (_, a) in per_profile {
+    let mut divergences: Vec<Violation> = Vec::new();
+    if prop.compare_profiles() && per_profile.len() == 2 {
+        let ctx = Ctx { base_seed: seed, tier, profile: "fast" };
+        let (a, b) = (&per_profile[0].1.transcripts, &per_profile[1].1.transcripts);
+        let mut compared = 0u64;
+        for (i, (da, ma)) in a {
+            if let Some((db, mb)) = b.get(i) {
+                compared += 1;
+                if da != db && divergences.len() < 20 {
+                    divergences.push(Violation {
+                        property: id.clone(),
+                        class: "profile-divergence".into(),
+                        detail: format!("run {i}: {} build: {ma} | {} build: {mb}", per_profile[0].0, per_profile[1].0),
+                        spec: prop.divergence_spec(&ctx, *i),
+                        engine: prop.engine().into(),
+                        index: *i,
+                        event_log_digest: *da,
+                    });
+                }
+            }
+        }
+        total.counters.insert("transcripts_compared_across_profiles".into(), compared);
+    }
+    for (_, mut a) in per_profile {
+        a.transcripts.clear();
         total.merge(a);
     }
+    total.violations.extend(divergences);
 
     // triage violations: known findings vs new
     let known = report::load_known(&format!("{VERIF_DIR}/known_findings.json"));
@@ -349,18 +398,28 @@ fn check(args: &[String]) -> i32 {
                 continue;
             }
             let path = format!("{VERIF_DIR}/replays/{}-{}-{}-{:x}.json", v.property, seed, v.index, v.event_log_digest);
-            let body = serde_json::to_string_pretty(&replay_file_json(v, seed, "fast")).unwrap();
+            let vprofile = if v.detail.starts_with("[checked build]") { "checked" } else { "fast" };
+            let vexe = bin_for(vprofile);
+            let body = serde_json::to_string_pretty(&replay_file_json(v, seed, vprofile)).unwrap();
             if let Err(e) = std::fs::write(&path, body) {
                 eprintln!("cannot write replay file: {e}");
                 return 2;
             }
             // minimise in a child process (rewrites the file only if the smaller spec still
             // fails the same way), then the file must reproduce in another fresh process
-            let _ = Command::new(&exe).arg("minimise").arg(&path)
-                .stdout(Stdio::null()).stderr(Stdio::null()).status();
-            let st = Command::new(&exe).arg("replay").arg(&path)
-                .stdout(Stdio::null()).stderr(Stdio::null()).status();
-            let reproduced = st.map(|s| s.code() == Some(1)).unwrap_or(false);
+            let reproduced = if v.class == "profile-divergence" {
+                // reproduced when the two builds still disagree on this spec
+                let t = |p: &str| Command::new(bin_for(p)).arg("transcript").arg(&path).stderr(Stdio::null()).output()
+                    .ok().map(|o| String::from_utf8_lossy(&o.stdout).trim().to_string());
+                let (a, b) = (t("fast"), t("checked"));
+                a.is_some() && b.is_some() && a != b
+            } else {
+                let _ = Command::new(&vexe).arg("minimise").arg(&path)
+                    .stdout(Stdio::null()).stderr(Stdio::null()).status();
+                let st = Command::new(&vexe).arg("replay").arg(&path)
+                    .stdout(Stdio::null()).stderr(Stdio::null()).status();
+                st.map(|s| s.code() == Some(1) || s.code() == Some(alloc::TRIP_EXIT_CODE)).unwrap_or(false)
+            };
             let shown: Value = std::fs::read_to_string(&path).ok()
                 .and_then(|t| serde_json::from_str(&t).ok()).unwrap_or(json!({}));
             println!("violation class={} detail={}", shown["violation"]["class"].as_str().unwrap_or(&v.class),
@@ -423,6 +482,7 @@ fn main() {
         "one" => one(&rest),
         "replay" => replay(&rest),
         "minimise" => minimise_cmd(&rest),
+        "transcript" => transcript_cmd(&rest),
         other => {
             eprintln!("unknown subcommand {other}");
             2
